@@ -422,7 +422,7 @@ func genC10mlink(g *G) {
 					for _, o2 := range second {
 						ops := build(n)
 						ops = append(ops, fmt.Sprintf("at c0 %d", i), fmt.Sprintf("at c1 %d", j), "copy c2 c1", o1, o2, "next c2", "push c0 5", "next c1", "remove c2")
-						g.Case(ops)
+						g.Each(ops) // exhaustive part: dealt to the generator shards
 					}
 				}
 			}
@@ -780,7 +780,7 @@ func genC10ring(g *G) {
 		for a := 0; a < n; a++ {
 			for b := 0; b < n; b++ {
 				ops := []string{"reset", "of r0" + seq(1, n), fmt.Sprintf("at r1 r0 %d", a), fmt.Sprintf("at r2 r0 %d", b), "join r3 r1 r2", "len r3", "len r1"}
-				g.Case(tail(ops))
+				g.Each(tail(ops)) // (a)–(e) are exhaustive/fixed scopes: dealt to the generator shards
 			}
 		}
 	}
@@ -791,7 +791,7 @@ func genC10ring(g *G) {
 			for a := 0; a < m; a++ {
 				for b := 0; b < n; b++ {
 					ops := []string{"reset", "of r0" + seq(1, m), "of r1" + seq(11, n), fmt.Sprintf("at r2 r0 %d", a), fmt.Sprintf("at r3 r1 %d", b), "join r4 r2 r3", "len r4", "len r0"}
-					g.Case(tail(ops))
+					g.Each(tail(ops))
 				}
 			}
 		}
@@ -800,7 +800,7 @@ func genC10ring(g *G) {
 	for n := 1; n <= maxSame; n++ {
 		for a := 0; a < n; a++ {
 			ops := []string{"reset", "of r0" + seq(1, n), fmt.Sprintf("at r1 r0 %d", a), "pop r2 r1", "next r3 r1", "prev r4 r1", fmt.Sprintf("at r5 r0 %d", g.Intn(n)), "join r6 r5 r2"}
-			g.Case(tail(ops))
+			g.Each(tail(ops))
 		}
 	}
 	// (d) At / Peek at every offset around the cycle length, both directions
@@ -812,10 +812,10 @@ func genC10ring(g *G) {
 		for k := 0; k <= n+1; k++ {
 			ops = append(ops, fmt.Sprintf("each r0 %d", k))
 		}
-		g.Case(ops)
+		g.Each(ops)
 	}
 	// (e) the empty ring and New
-	g.Case([]string{"reset", "of r0", "new r1 0", "new r2 -3", "len r0", "each r0 2", "at r3 r0 1", "peek r0 0", "isempty r0", "pop r4 r0", "join r5 r0 r1", "new r2 3", "join r5 r0 r2", "join r5 r2 r0", "next r5 r0", "prev r5 r0", "isempty r2"})
+	g.Each([]string{"reset", "of r0", "new r1 0", "new r2 -3", "len r0", "each r0 2", "at r3 r0 1", "peek r0 0", "isempty r0", "pop r4 r0", "join r5 r0 r1", "new r2 3", "join r5 r0 r2", "join r5 r2 r0", "next r5 r0", "prev r5 r0", "isempty r2"})
 	// (f) random histories over eight element registers
 	cases := g.Scale(300, 6000)
 	maxOps := g.Scale(40, 150)
